@@ -19,7 +19,7 @@ VARIABLE l
 
 JSet(s) == {s[k] : k \in DOMAIN s}
 JFun(s) == [x \in {s[k][1] : k \in DOMAIN s} |-> s[CHOOSE k \in DOMAIN s : s[k][1] = x][2]]
-JNode(n) == IF n.tag = "B" THEN Bucket(JSet(n.items)) ELSE Split([zero |-> n.zero, right |-> {}, ms |-> <<>>], n.l, n.r)
+JNode(n) == IF n.tag = "B" THEN Bucket(JSet(n.items)) ELSE Split([zero |-> n.zero, right |-> {n.pt}, ms |-> <<>>], n.l, n.r)
 JNodes(ns) == [x \in {ns[k].id : k \in DOMAIN ns} |-> JNode(ns[CHOOSE k \in DOMAIN ns : ns[k].id = x])]
 JMeta(m) == IF m.has THEN [metric |-> m.metric, dim |-> m.dim, items |-> JSet(m.items), roots |-> m.roots] ELSE NoMeta
 JIndex(st) == [metric |-> st.metric, dim |-> st.dim, store |-> JFun(st.store), updated |-> JSet(st.updated),
